@@ -2410,7 +2410,7 @@ def pvalOK : PVal → Bool
 
 def slotOK (s : Slot) : Bool :=
   pvalOK s.v &&
-  (match s.d.custom with | .computed val => itemOK val | _ => true) &&
+  (match s.d.custom with | .computed val => pvalOK val | _ => true) &&
   (match s.d.dt with | .arrayOf _ _ dflt => itemOK dflt | _ => true)
 
 def rvOK : RVal → Bool
@@ -4137,3 +4137,4 @@ example : typeOK t_analogValue = true := by decide +kernel
 end Ex
 
 end BacVerif.C15
+
